@@ -251,7 +251,7 @@ def choking(rng):
     """C14: many peers, interest flips, chosen rate vectors (ties), bitfield bursts, several rotations."""
     gname = 'g4'
     pl, files, n, plens = geo(gname)
-    k = rng.choice([3, 6, 12, 13, 14])
+    k = rng.choice([3, 6, 12, 13, 14, 14])
     peers = [peer(j, set(rng.sample(range(n), rng.randint(0, n))), serve='none') for j in range(k)]
     steps = [{'op': 'advance', 'ms': 10}]
     for j in range(k):
@@ -685,4 +685,52 @@ def handover(rng):
     sc = base(gname, peers, steps, [{'k': 'peers', 'peers': []}], pat=rng.randrange(251))
     sc['family'] = 'honest'
     sc['essential'] = [1]
+    return sc
+
+
+def rarest(rng):
+    """C13: unequal availability: low-numbered pieces are held by many peers, high-numbered ones by few; a
+    peer holding everything must be asked for one of the rarest pieces, not for the first one."""
+    gname = rng.choice(['g12', 'g4'])
+    pl, files, n, plens = geo(gname)
+    k = rng.randint(3, 5)
+    peers = []
+    steps = []
+    for j in range(k - 1):
+        # peer j holds the first pieces only (prefixes of different length): availability falls with the index
+        upto = rng.randint(1, n - 1)
+        peers.append(peer(j, set(range(upto)), serve='none'))
+        steps += [{'op': 'connect', 'peer': j}, send(j, hs(), bf(range(upto)))]
+    full = k - 1
+    peers.append(peer(full, set(range(n)), serve=rng.choice(['none', 'good'])))
+    steps += [{'op': 'connect', 'peer': full}, send(full, hs(), bf(range(n))), send(full, fr('Unchoke'))]
+    order = list(range(k - 1))
+    rng.shuffle(order)
+    for j in order:
+        steps.append(send(j, fr('Unchoke')))
+    steps.append({'op': 'advance', 'ms': 50})
+    sc = base(gname, peers, steps, [{'k': 'peers', 'peers': []}], pat=rng.randrange(251))
+    sc['family'] = 'rarest'
+    return sc
+
+
+def slots(rng):
+    """C14: more interested peers than slots over several optimistic rounds: the optimistic peer's rate may
+    beat a regular slot holder's at a later rotation."""
+    gname = 'g4'
+    pl, files, n, plens = geo(gname)
+    k = rng.choice([12, 13, 14])
+    peers = [peer(j, {rng.randrange(n)}, serve='none') for j in range(k)]
+    steps = [{'op': 'advance', 'ms': 10}]
+    for j in range(k):
+        steps += [{'op': 'connect', 'peer': j}, send(j, hs()), {'op': 'rates', 'peer': j, 'dl': rng.randrange(10), 'ul': rng.randrange(10)},
+                  send(j, bf(peers[j]['has'])), send(j, fr('Interested'))]
+    for rnd in range(rng.choice([7, 8, 10])):
+        steps.append({'op': 'advance', 'ms': 10000, 'slice': 2500})
+        for _ in range(rng.randint(0, 3)):
+            j = rng.randrange(k)
+            steps.append({'op': 'rates', 'peer': j, 'dl': rng.randrange(12), 'ul': rng.choice([0, 3, 11, 15, 20])})
+    steps.append({'op': 'advance', 'ms': 300})
+    sc = base(gname, peers, steps, [{'k': 'peers', 'peers': []}], pat=rng.randrange(251))
+    sc['family'] = 'slots'
     return sc
